@@ -569,9 +569,19 @@ func run(r *vk.Runner) {
 	grow("long-digits", func(n int) string { return `{"s":` + strings.Repeat("9", n) + `}` })
 	// ---- (4c) amplification: a document of a few bytes must not make the decoder allocate megabytes ----
 	r.Family("amplification")
-	for _, doc := range []string{`{"d":"1e3000000"}`, `{"d":1e3000000}`, `{"d":"1e-3000000"}`, `{"d":"-1E+3000000"}`, `{"ds":["1e3000000"]}`, `{"x":1e3000000}`, `{"x":"1e3000000"}`, `{"n":1e3000000}`, `{"n":"1e18"}`, `{"s":1e3000000}`, `{"t":"9999999999-01-01T00:00:00Z"}`, `{"d":"0.` + strings.Repeat("0", 40) + `1"}`} {
+	// decimal exponents around every width the implementation might hold them in
+	var expDocs []string
+	for _, e := range []string{"999", "1000", "1001", "32767", "32768", "65536", "2147483646", "2147483647", "2147483648", "2147483649", "4294967295", "4294967296", "4294967297", "9223372036854775807", "9223372036854775808", "18446744073709551616"} {
+		for _, sign := range []string{"", "-", "+"} {
+			for _, mant := range []string{"1", "1.0", "-1", "0", "0.1", "10"} {
+				expDocs = append(expDocs, `{"d":"`+mant+`e`+sign+e+`"}`)
+			}
+			expDocs = append(expDocs, `{"d":1E`+sign+e+`}`, `{"ds":["1","1e`+sign+e+`"]}`)
+		}
+	}
+	for _, doc := range append(expDocs, []string{`{"d":"1e3000000"}`, `{"d":1e3000000}`, `{"d":"1e-3000000"}`, `{"d":"-1E+3000000"}`, `{"ds":["1e3000000"]}`, `{"x":1e3000000}`, `{"x":"1e3000000"}`, `{"n":1e3000000}`, `{"n":"1e18"}`, `{"s":1e3000000}`, `{"t":"9999999999-01-01T00:00:00Z"}`, `{"d":"0.` + strings.Repeat("0", 40) + `1"}`}...) {
 		doc := doc
-		r.Do("amplification:"+doc[:min(len(doc), 40)], func(t *vk.T) {
+		r.Do("amplification:"+doc[:min(len(doc), 48)], func(t *vk.T) {
 			t.Coord("amplification")
 			t.SigCoord("json")
 			t.Nontrivial()
